@@ -437,7 +437,11 @@ impl ParquetMetaDataPushDecoder {
                     return Ok(DecodeResult::Data(*metadata));
                 }
 
-                DecodeState::Finished => return Ok(DecodeResult::Finished),
+                DecodeState::Finished => {
+                    // stay finished: the state was swapped out above
+                    self.state = DecodeState::Finished;
+                    return Ok(DecodeResult::Finished);
+                }
                 DecodeState::Intermediate => {
                     return Err(general_err!(
                         "ParquetMetaDataPushDecoder: internal error, invalid state"
